@@ -39,6 +39,10 @@ type block struct {
 	parent *block
 	h      hdr
 	op     string
+	// dynamic parameters (dyn.go): ops executed after the block while it is processed (a parameter
+	// change in force from the next height), the parameters in force for this block and for its children
+	post    []string
+	in, par *pset
 }
 
 type validator struct {
@@ -51,16 +55,25 @@ type validator struct {
 
 // Tree is a generated fork tree together with its parameters.
 type Tree struct {
-	Setup    []string // reset + setparams + setkeys
-	Blocks   []*block
-	Tips     []*block
-	Low      bool // precommit threshold below the safe bound (known-finding region)
-	Desc     string
+	Setup  []string // reset + setparams + setkeys
+	Blocks []*block
+	Tips   []*block
+	Low    bool // precommit threshold below the safe bound (known-finding region)
+	Desc   string
+	// trees with parameter changes along the branches (dyn.go)
+	Dyn     bool
+	Mode    string
+	Byz     map[string]bool
+	P0      *pset
+	Changes int
 }
 
 func (t *Tree) branchOps(tip *block) []string {
 	var rev []string
 	for b := tip; b != nil; b = b.parent {
+		for i := len(b.post) - 1; i >= 0; i-- {
+			rev = append(rev, b.post[i])
+		}
 		rev = append(rev, b.op)
 	}
 	ops := append([]string{}, t.Setup...)
@@ -237,6 +250,12 @@ func min(a, b int) int {
 
 // CheckSafety runs every branch on a real node and compares the finalized prefixes pairwise.
 func CheckSafety(t *Tree) (conflict string, finalized int) {
+	conflict, finalized, _, _ = checkSafetyPair(t)
+	return
+}
+
+// checkSafetyPair also returns the indices (in t.Tips) of the two conflicting views.
+func checkSafetyPair(t *Tree) (conflict string, finalized int, ti, tj int) {
 	type view struct {
 		chain []*block // index = height-1
 		fin   uint32
@@ -263,12 +282,12 @@ func CheckSafety(t *Tree) (conflict string, finalized int) {
 			}
 			for h := uint32(1); h <= m; h++ {
 				if views[i].chain[h-1] != views[j].chain[h-1] {
-					return fmt.Sprintf("%s: branches of tips #%d and #%d finalize different blocks at height %d (finalized heights %d and %d)", t.Desc, t.Tips[i].id, t.Tips[j].id, h, views[i].fin, views[j].fin), finalized
+					return fmt.Sprintf("%s: branches of tips #%d and #%d finalize different blocks at height %d (finalized heights %d and %d)", t.Desc, t.Tips[i].id, t.Tips[j].id, h, views[i].fin, views[j].fin), finalized, i, j
 				}
 			}
 		}
 	}
-	return "", finalized
+	return "", finalized, -1, -1
 }
 
 func (prop) Generate(rng *rand.Rand, tier string) []corr.Case {
@@ -283,7 +302,30 @@ func (prop) Generate(rng *rand.Rand, tier string) []corr.Case {
 			if k >= 3 {
 				break
 			}
-			cases = append(cases, corr.Case{Ops: t.branchOps(tip), Tag: "branch"})
+			cases = append(cases, corr.Case{Ops: t.branchOps(tip), Tag: "branch:" + t.Class()})
+		}
+	}
+	// trees with parameter changes along the branches; own random stream (see derivedRng)
+	drng := derivedRng(cases)
+	w := dynWitness()
+	for _, tip := range w.Tips {
+		cases = append(cases, corr.Case{Ops: w.branchOps(tip), Tag: "witness:" + w.Class()})
+	}
+	nd := 36
+	if tier == "thorough" {
+		nd = 500
+	}
+	for i := 0; i < nd; i++ {
+		t := GenDynTree(drng, 30, dynModes[i%len(dynModes)])
+		if t == nil {
+			continue
+		}
+		cl := t.Class()
+		for k, tip := range t.Tips {
+			if k >= 3 {
+				break
+			}
+			cases = append(cases, corr.Case{Ops: t.branchOps(tip), Tag: "branch:" + cl})
 		}
 	}
 	return cases
@@ -315,11 +357,32 @@ func (prop) RunImpl(c corr.Case) ([]string, []corr.Fail) {
 	return out, fails
 }
 
+// Classify: the class of the tree the branch belongs to (which theorem covers it: static-ok,
+// static-low, dyn-bounded, dyn-unbounded — carried by the tag) and what the branch exercised:
+// finality advanced, or (dynamic trees) parameters changed after the first block without finality.
 func (prop) Classify(c corr.Case, out []string) string {
-	last := out[len(out)-1]
-	f := strings.Fields(last)
-	if len(f) > 2 && f[0] == "ok" && f[2] != "0" {
-		return "finalized"
+	cov := ""
+	if i := strings.Index(c.Tag, ":"); i >= 0 && (strings.HasPrefix(c.Tag, "branch:") || strings.HasPrefix(c.Tag, "witness:")) {
+		cov = c.Tag[i+1:] + "/"
+	}
+	// the last op that dumps the store
+	for i := len(out) - 1; i >= 0; i-- {
+		f := strings.Fields(out[i])
+		if len(f) > 2 && f[0] == "ok" {
+			if f[2] != "0" {
+				return cov + "finalized"
+			}
+			break
+		}
+	}
+	seenBlock := false
+	for i, op := range c.Ops {
+		if strings.HasPrefix(op, "block ") && strings.HasPrefix(out[i], "ok") {
+			seenBlock = true
+		}
+		if seenBlock && strings.HasPrefix(op, "setparams ") && strings.HasPrefix(out[i], "ok") {
+			return cov + "params-changed"
+		}
 	}
 	return ""
 }
@@ -364,11 +427,7 @@ func (prop) Extra(rng *rand.Rand, tier string) corr.ExtraResult {
 	res := corr.ExtraResult{Notes: map[string]any{}}
 	withFinality, lowTrees, forks := 0, 0, 0
 	report := func(t *Tree, conflict string) {
-		sig := "finality-conflict"
-		if t.Low {
-			sig = "finality-conflict:low-precommit-threshold"
-		}
-		res.Fails = append(res.Fails, corr.Fail{Sig: sig, Detail: conflict, Op: -1})
+		res.Fails = append(res.Fails, corr.Fail{Sig: conflictSig(t.Class()), Detail: conflict, Op: -1})
 	}
 	// the recorded witness first
 	if c, _ := CheckSafety(knownWitness()); c != "" {
@@ -397,5 +456,109 @@ func (prop) Extra(rng *rand.Rand, tier string) corr.ExtraResult {
 	res.Notes["trees_with_finality"] = withFinality
 	res.Notes["trees_with_forks"] = forks
 	res.Notes["trees_with_low_threshold"] = lowTrees
+	extraDyn(rng, tier, &res)
 	return res
+}
+
+// extraDyn explores trees with parameter changes along the branches (dyn.go) and records, per class
+// of tree (which theorem covers it), how many trees were checked, had forks, parameter changes,
+// finality, and conflicting finalization.
+func extraDyn(rng *rand.Rand, tier string, res *corr.ExtraResult) {
+	n := 150
+	if tier == "thorough" {
+		n = 3000
+	}
+	type stat struct{ Trees, Forks, Changed, ChangeOnCommonPrefix, ChangeAfterFork, Finality, Conflicts int }
+	stats := map[string]*stat{}
+	modeConf := map[string]int{}
+	byMode := map[string]int{}
+	get := func(k string) *stat {
+		if stats[k] == nil {
+			stats[k] = &stat{}
+		}
+		return stats[k]
+	}
+	reported := map[string]int{}
+	check := func(t *Tree) {
+		res.Evaluations++
+		cl := t.Class()
+		st := get(cl)
+		st.Trees++
+		if len(t.Tips) > 1 {
+			st.Forks++
+		}
+		if t.Changes > 0 {
+			st.Changed++
+		}
+		common, after := changePlaces(t)
+		if common {
+			st.ChangeOnCommonPrefix++
+		}
+		if after {
+			st.ChangeAfterFork++
+		}
+		c, fin, ti, tj := checkSafetyPair(t)
+		if fin > 0 {
+			st.Finality++
+		}
+		byMode[t.Mode+"/"+cl]++
+		if c != "" {
+			st.Conflicts++
+			modeConf[t.Mode]++
+			sig := conflictSig(cl)
+			if reported[sig] < 3 {
+				reported[sig]++
+				detail := c
+				if v := boundViolation(t); v != "" {
+					detail += "; bounded-change condition violated by " + v
+				}
+				detail += "; branches: "
+				for _, tip := range []*block{t.Tips[ti], t.Tips[tj]} {
+					detail += fmt.Sprintf("[#%d: %s] ", tip.id, strings.Join(t.branchOps(tip), "; "))
+				}
+				res.Fails = append(res.Fails, corr.Fail{Sig: sig, Detail: detail, Op: -1})
+			}
+		}
+	}
+	// the recorded witness of `finality-conflict:validator-set-replaced` first (always generated)
+	check(dynWitness())
+	for i := 0; i < n; i++ {
+		t := GenDynTree(rng, 40, dynModes[i%len(dynModes)])
+		if t == nil {
+			continue
+		}
+		check(t)
+		if i < 3 {
+			res.Samples = append(res.Samples, t.Desc+" class="+t.Class()+" blocks="+fmt.Sprint(len(t.Blocks))+" tips="+fmt.Sprint(len(t.Tips)))
+		}
+	}
+	for k, st := range stats {
+		res.Notes["dyn_class_"+k] = *st
+	}
+	res.Notes["dyn_conflicts_by_mode"] = modeConf
+	res.Notes["dyn_trees_by_mode_and_class"] = byMode
+}
+
+// changePlaces: does the tree have a parameter change on a common prefix (a changing block with at
+// least two tips above it: both branches see the change) / after a fork (a changing block that some
+// tip does not descend from: the branches disagree on the parameters)?
+func changePlaces(t *Tree) (common, afterFork bool) {
+	for _, b := range t.Blocks {
+		if len(b.post) == 0 {
+			continue
+		}
+		above := 0
+		for _, tip := range t.Tips {
+			if isAncestorOrSelf(b, tip) {
+				above++
+			}
+		}
+		if above >= 2 {
+			common = true
+		}
+		if above < len(t.Tips) {
+			afterFork = true
+		}
+	}
+	return
 }
